@@ -877,14 +877,30 @@ Section Proofs.
   Definition start_ok (f : term) (st : cstate) : Prop :=
     intro st = [] /\ forall n ty, In (n, ty) (fv f) -> In n (mnames (mgr st)).
 
-  Lemma start_facts f st st' : start_ok f st -> st_le st st' ->
-    NoDup (map snd (intro st')) /\
-    (forall n, In n (map snd (intro st')) -> ~ In n (mnames (mgr st)) /\ ~ In (n, TBool) (fv f)).
+  (* a converter object that has already converted other formulas (reuse): its table of
+     introduced variables is well formed, the manager knows f's symbols, and f does not mention
+     a variable introduced by an earlier conversion *)
+  Definition reuse_ok (f : term) (st : cstate) : Prop :=
+    st_wf st /\ (forall n ty, In (n, ty) (fv f) -> In n (mnames (mgr st))) /\
+    (forall n, In n (map snd (intro st)) -> ~ In (n, TBool) (fv f)).
+  Lemma start_reuse f st : start_ok f st -> reuse_ok f st.
   Proof.
-    intros [Hi Hn] ((D & E & F) & _ & W). rewrite Hi in E. cbn in E. split.
-    - apply W. split; rewrite Hi; cbn; [constructor | intros ? []].
-    - intros n Hin. rewrite E in Hin. apply in_map_iff in Hin. destruct Hin as ([g m] & <- & Hgm). cbn.
-      pose proof (F g m Hgm) as Hf. split; auto. intros H. apply Hf. eapply Hn; eauto.
+    intros [Hi Hn]. split; [|split; auto].
+    - split; rewrite Hi; cbn; [constructor | intros ? []].
+    - rewrite Hi. intros n [].
+  Qed.
+
+  Lemma start_facts f st st' : reuse_ok f st -> st_le st st' ->
+    NoDup (map snd (intro st')) /\
+    (forall n, In n (map snd (intro st')) ->
+               (In n (map snd (intro st)) \/ ~ In n (mnames (mgr st))) /\ ~ In (n, TBool) (fv f)).
+  Proof.
+    intros (Hwf & Hn & Hold) ((D & E & F) & _ & W). split.
+    - apply W, Hwf.
+    - intros n Hin. rewrite E, map_app in Hin. apply in_app_or in Hin. destruct Hin as [Hin|Hin].
+      + split; auto.
+      + apply in_map_iff in Hin. destruct Hin as ([g m] & <- & Hgm). cbn.
+        pose proof (F g m Hgm) as Hf. split; auto. intros H. apply Hf. eapply Hn; eauto.
   Qed.
 
   Lemma ext_agrees I M : agrees_off (map snd M) I (ext I M).
@@ -949,10 +965,10 @@ Section Proofs.
 
   (* C11, completeness: every interpretation satisfying the input extends over the fresh symbols
      to one satisfying the output *)
-  Theorem convert_complete w f st cl st' I : walk_ok w f -> start_ok f st ->
+  Theorem convert_complete w f st cl st' I : walk_ok w f -> reuse_ok f st ->
     convert_with asimp w f st = Some (cl, st') -> Pi I -> holds I f ->
     exists I', agrees_off (map snd (intro st')) I I' /\ sat I' cl = true /\
-               (forall n, In n (map snd (intro st')) -> ~ In n (mnames (mgr st))).
+               (forall n, In n (map snd (intro st')) -> In n (map snd (intro st)) \/ ~ In n (mnames (mgr st))).
   Proof.
     intros Hw Hst Hc HPI Hf. unfold convert_with in Hc.
     destruct (w f st) as [[[|tl cl0] s1]|] eqn:E; try discriminate. injection Hc as <- <-.
@@ -1036,7 +1052,7 @@ Section Proofs.
       pose proof (S J' HPJ' Hs' Ht) as Hf. unfold tv in *. rewrite (same_off_eval N J J' f HJ Hfr). exact Hf.
   Qed.
 
-  Lemma top_lits_ok w f st key cl st' : walk_ok w f -> start_ok f st -> w f st = Some (R key cl, st') ->
+  Lemma top_lits_ok w f st key cl st' : walk_ok w f -> reuse_ok f st -> w f st = Some (R key cl, st') ->
     Forall (Forall (litok Pi (map snd (intro st')))) cl.
   Proof.
     intros Hw Hst E. destruct (Hw _ _ _ _ E) as [Hle (_ & _ & _ & Li)].
@@ -1050,7 +1066,7 @@ Section Proofs.
   Qed.
 
   (* C11, soundness: every interpretation satisfying the output satisfies the input *)
-  Theorem convert_sound w f st cl st' J : walk_ok w f -> start_ok f st ->
+  Theorem convert_sound w f st cl st' J : walk_ok w f -> reuse_ok f st ->
     convert_with asimp w f st = Some (cl, st') -> Pi J -> sat J cl = true -> holds J f.
   Proof.
     intros Hw Hst Hc HPJ Hs. unfold convert_with in Hc.
@@ -1103,6 +1119,27 @@ Section Proofs.
     destruct (is_connective o) eqn:Ho.
     - apply in_flat_map in Ha. destruct Ha as (x & Hx & Hax). rewrite Forall_forall in IH. eauto.
     - destruct Ha as [<-|[]]. unfold atomic. cbn. now rewrite Ho.
+  Qed.
+
+  (* every literal of the result satisfies any predicate that holds of the fresh-symbol literals,
+     TRUE, FALSE and the atoms of the input and is closed under the two negations *)
+  Theorem convert_lits w f st cl st' (P : term -> Prop) : walk_ok w f -> lit_closed P ->
+    (forall n, P (TSym n TBool) /\ P (T ONot [TSym n TBool])) -> P TTrue -> P TFalse ->
+    (forall a, In a (leaves f) -> P a) ->
+    convert_with asimp w f st = Some (cl, st') -> Forall (Forall P) cl.
+  Proof.
+    intros Hw Hcl Hsy HT HF Hlv Hc. unfold convert_with in Hc.
+    destruct (w f st) as [[[|tl cl0] s1]|] eqn:E; try discriminate. injection Hc as <- <-.
+    destruct (Hw _ _ _ _ E) as [_ (_ & _ & _ & Li)].
+    destruct (Li P Hcl (fun n _ => Hsy n) HT HF Hlv) as [Htl Hcl0].
+    unfold cleanup. destruct cl0 as [|c0 cl1] eqn:Ecl; [repeat constructor; auto|].
+    rewrite <- Ecl in *. destruct (existsb is_nil cl0 || has_emptied asimp tl cl0); [repeat constructor|].
+    apply Forall_forall. intros c' Hc'. apply in_flat_map in Hc'. destruct Hc' as (c & Hc & Hin).
+    unfold clean_clause in Hin. destruct (existsb (fun l => ctrue l || term_eqb l tl) c); [destruct Hin|].
+    destruct (filter (fun l => negb (term_eqb l (neg_lit tl)) && negb (cfalse l)) c) as [|x r] eqn:Ef; [destruct Hin|].
+    destruct Hin as [<-|[]]. rewrite <- Ef. apply Forall_forall. intros l Hl. apply filter_In in Hl.
+    destruct Hl as [Hl _]. rewrite Forall_forall in Hcl0. pose proof (Hcl0 c Hc) as Hcc.
+    rewrite Forall_forall in Hcc. auto.
   Qed.
 
   (* C11, shape: the result is a set of clauses of literals *)
@@ -1770,43 +1807,95 @@ Section FinalRel.
     cnf_convert asimp f st = Some (cl, st') -> clauses_of_literals cl.
   Proof. intros Hsh H. exact (convert_shape asimp Pi _ f st cl st' (cnf_walk_ok asimp Pi Hs (proj1 Hc) f) Hsh H). Qed.
 
-  Theorem cnf_complete_rel f st cl st' I : start_ok f st ->
+  (* ---- reused converter objects: each call of a history ([reuse_ok]) ---- *)
+  Theorem cnf_complete_reuse f st cl st' I : reuse_ok f st ->
     cnf_convert asimp f st = Some (cl, st') -> Pi I -> holds I f ->
     exists I', agrees_off (introduced st') I I' /\ sat I' cl = true /\ holds I' (as_formula cl) /\
-               (forall n, In n (introduced st') -> ~ In n (mnames (mgr st))).
+               (forall n, In n (introduced st') -> In n (introduced st) \/ ~ In n (mnames (mgr st))).
   Proof.
     intros Hst H HP Hf.
     destruct (convert_complete asimp Pi Hs (proj1 Hc) _ f st cl st' I (cnf_walk_ok asimp Pi Hs (proj1 Hc) f) Hst H HP Hf) as (I' & A & B & C).
     exists I'. repeat split; auto; try apply A. now apply as_formula_holds.
   Qed.
-
-  Theorem cnf_sound_rel f st cl st' J : start_ok f st ->
+  Theorem cnf_sound_reuse f st cl st' J : reuse_ok f st ->
     cnf_convert asimp f st = Some (cl, st') -> Pi J -> sat J cl = true -> holds J f.
   Proof.
     intros Hst H HP HJ.
     exact (convert_sound asimp Pi Hs (proj2 Hc) _ f st cl st' J (cnf_walk_ok asimp Pi Hs (proj1 Hc) f) Hst H HP HJ).
   Qed.
-
-  Theorem pol_shape_rel f st cl st' : shape_hyp asimp ->
-    pol_convert asimp f st = Some (cl, st') -> clauses_of_literals cl.
-  Proof. intros Hsh H. exact (convert_shape asimp Pi _ f st cl st' (pol_walk_ok asimp Pi Hs (proj1 Hc) f) Hsh H). Qed.
-
-  Theorem pol_complete_rel f st cl st' I : start_ok f st ->
+  Theorem pol_complete_reuse f st cl st' I : reuse_ok f st ->
     pol_convert asimp f st = Some (cl, st') -> Pi I -> holds I f ->
     exists I', agrees_off (introduced st') I I' /\ sat I' cl = true /\ holds I' (as_formula cl) /\
-               (forall n, In n (introduced st') -> ~ In n (mnames (mgr st))).
+               (forall n, In n (introduced st') -> In n (introduced st) \/ ~ In n (mnames (mgr st))).
   Proof.
     intros Hst H HP Hf.
     destruct (convert_complete asimp Pi Hs (proj1 Hc) _ f st cl st' I (pol_walk_ok asimp Pi Hs (proj1 Hc) f) Hst H HP Hf) as (I' & A & B & C).
     exists I'. repeat split; auto; try apply A. now apply as_formula_holds.
   Qed.
-
-  Theorem pol_sound_rel f st cl st' J : start_ok f st ->
+  Theorem pol_sound_reuse f st cl st' J : reuse_ok f st ->
     pol_convert asimp f st = Some (cl, st') -> Pi J -> sat J cl = true -> holds J f.
   Proof.
     intros Hst H HP HJ.
     exact (convert_sound asimp Pi Hs (proj2 Hc) _ f st cl st' J (pol_walk_ok asimp Pi Hs (proj1 Hc) f) Hst H HP HJ).
   Qed.
+
+  (* ---- a new converter object ([start_ok]) ---- *)
+  Lemma fresh_only f st st' : start_ok f st ->
+    (forall n, In n (introduced st') -> In n (introduced st) \/ ~ In n (mnames (mgr st))) ->
+    forall n, In n (introduced st') -> ~ In n (mnames (mgr st)).
+  Proof. intros [Hi _] H n Hn. destruct (H n Hn) as [Ho|]; auto. unfold introduced in Ho. rewrite Hi in Ho. destruct Ho. Qed.
+
+  Theorem cnf_complete_rel f st cl st' I : start_ok f st ->
+    cnf_convert asimp f st = Some (cl, st') -> Pi I -> holds I f ->
+    exists I', agrees_off (introduced st') I I' /\ sat I' cl = true /\ holds I' (as_formula cl) /\
+               (forall n, In n (introduced st') -> ~ In n (mnames (mgr st))).
+  Proof.
+    intros Hst H HP Hf. destruct (cnf_complete_reuse f st cl st' I (start_reuse _ _ Hst) H HP Hf) as (I' & A & B & C & D).
+    exists I'. repeat split; auto; try apply A. exact (fresh_only f st st' Hst D).
+  Qed.
+  Theorem cnf_sound_rel f st cl st' J : start_ok f st ->
+    cnf_convert asimp f st = Some (cl, st') -> Pi J -> sat J cl = true -> holds J f.
+  Proof. intros Hst. apply cnf_sound_reuse. now apply start_reuse. Qed.
+  Theorem pol_shape_rel f st cl st' : shape_hyp asimp ->
+    pol_convert asimp f st = Some (cl, st') -> clauses_of_literals cl.
+  Proof. intros Hsh H. exact (convert_shape asimp Pi _ f st cl st' (pol_walk_ok asimp Pi Hs (proj1 Hc) f) Hsh H). Qed.
+  Theorem pol_complete_rel f st cl st' I : start_ok f st ->
+    pol_convert asimp f st = Some (cl, st') -> Pi I -> holds I f ->
+    exists I', agrees_off (introduced st') I I' /\ sat I' cl = true /\ holds I' (as_formula cl) /\
+               (forall n, In n (introduced st') -> ~ In n (mnames (mgr st))).
+  Proof.
+    intros Hst H HP Hf. destruct (pol_complete_reuse f st cl st' I (start_reuse _ _ Hst) H HP Hf) as (I' & A & B & C & D).
+    exists I'. repeat split; auto; try apply A. exact (fresh_only f st st' Hst D).
+  Qed.
+  Theorem pol_sound_rel f st cl st' J : start_ok f st ->
+    pol_convert asimp f st = Some (cl, st') -> Pi J -> sat J cl = true -> holds J f.
+  Proof. intros Hst. apply pol_sound_reuse. now apply start_reuse. Qed.
+
+  (* ---- histories: every state reached by successful conversions on one object is well formed ---- *)
+  Inductive cnf_hist : cstate -> Prop :=
+  | ch_new guess names : cnf_hist (init_state guess names)
+  | ch_cnf st f cl st' : cnf_hist st -> cnf_convert asimp f st = Some (cl, st') -> cnf_hist st'
+  | ch_pol st f cl st' : cnf_hist st -> pol_convert asimp f st = Some (cl, st') -> cnf_hist st'
+  | ch_mgr st m' : cnf_hist st -> incl (mnames (mgr st)) (mnames m') -> cnf_hist {| mgr := m'; intro := intro st |}.
+
+  Lemma convert_with_le w f st cl st' : walk_ok asimp Pi w f -> convert_with asimp w f st = Some (cl, st') -> st_le st st'.
+  Proof.
+    intros Hw H. unfold convert_with in H. destruct (w f st) as [[[|tl cl0] s1]|] eqn:E; try discriminate.
+    injection H as _ <-. exact (proj1 (Hw _ _ _ _ E)).
+  Qed.
+  Theorem cnf_hist_wf st : cnf_hist st -> st_wf st.
+  Proof.
+    induction 1 as [guess names | st f cl st' _ IH H | st f cl st' _ IH H | st m' _ IH Hm].
+    - split; cbn; [constructor | intros ? []].
+    - destruct (convert_with_le _ f st cl st' (cnf_walk_ok asimp Pi Hs (proj1 Hc) f) H) as (_ & _ & W). auto.
+    - destruct (convert_with_le _ f st cl st' (pol_walk_ok asimp Pi Hs (proj1 Hc) f) H) as (_ & _ & W). auto.
+    - destruct IH as [Hnd Hin]. split; cbn; auto. eapply incl_tran; eauto.
+  Qed.
+  (* the n-th call of any history: the start condition reduces to what the caller controls *)
+  Theorem cnf_hist_reuse_ok st f : cnf_hist st ->
+    (forall n ty, In (n, ty) (fv f) -> In n (mnames (mgr st))) ->
+    (forall n, In n (introduced st) -> ~ In (n, TBool) (fv f)) -> reuse_ok f st.
+  Proof. intros Hh Hn Ho. split; [now apply cnf_hist_wf | split; auto]. Qed.
 End FinalRel.
 
 (* ---- every interpretation: the simplifier as an unconditional hypothesis ---- *)
@@ -1889,4 +1978,31 @@ Proof.
   split; [eexists; eexists; vm_compute; repeat split; reflexivity|].
   split; [eexists; eexists; vm_compute; repeat split; reflexivity|].
   apply holds_tv. reflexivity.
+Qed.
+
+(* a two-call history on one CNFizer: the second formula shares (a & b) with the first and reuses
+   its variable FV1; the hypotheses of the reuse theorems hold for the second call *)
+Definition ex_g : term := T OImplies [T OAnd [sym_a; TSym "b" TBool]; TSym "c" TBool].
+Example ex_history :
+  exists cl1 st1 cl2 st2,
+    cnf_convert id_simp ex_f ex_st = Some (cl1, st1) /\ cnf_convert id_simp ex_g st1 = Some (cl2, st2) /\
+    cnf_hist id_simp st1 /\ reuse_ok ex_g st1 /\
+    introduced st1 = ["FV1"; "FV2"; "FV3"; "FV4"]%string /\ introduced st2 = ["FV1"; "FV2"; "FV3"; "FV4"; "FV5"]%string.
+Proof.
+  destruct (cnf_convert id_simp ex_f ex_st) as [[cl1 st1]|] eqn:E1; [|vm_compute in E1; discriminate].
+  destruct (cnf_convert id_simp ex_g st1) as [[cl2 st2]|] eqn:E2.
+  2: { vm_compute in E1. injection E1 as <- <-. vm_compute in E2. discriminate. }
+  exists cl1, st1, cl2, st2.
+  assert (Hh : cnf_hist id_simp st1) by (eapply ch_cnf; [apply ch_new | exact E1]).
+  split; [first [exact E1 | reflexivity]|]. split; [first [exact E2 | reflexivity]|]. split; [exact Hh|].
+  assert (Est : introduced st1 = ["FV1"; "FV2"; "FV3"; "FV4"]%string /\ mnames (mgr st1) = ["a"; "b"; "c"; "FV0"; "FV1"; "FV2"; "FV3"; "FV4"]%string).
+  { vm_compute in E1. injection E1 as <- <-. split; reflexivity. }
+  destruct Est as [Ei En]. split; [|split; [exact Ei|]].
+  - apply (cnf_hist_reuse_ok id_simp all_interps (simp_sound_all id_simp id_simp_sound) all_closed st1 ex_g Hh).
+    + intros n ty H. rewrite En. vm_compute in H.
+      repeat (destruct H as [H|H]; [injection H as <- _; cbn; tauto|]). destruct H.
+    + intros n Hn. rewrite Ei in Hn. intros H. vm_compute in H.
+      repeat (destruct H as [H|H]; [injection H as <-; cbn in Hn; repeat (destruct Hn as [Hn|Hn]; [discriminate Hn|]); destruct Hn|]).
+      destruct H.
+  - vm_compute in E1. injection E1 as <- <-. vm_compute in E2. injection E2 as <- <-. reflexivity.
 Qed.
